@@ -106,6 +106,14 @@ def enumerated(tier, seed):
         for lim in (0, 10):
             out.append({"n": k + 2, "edges": es, "labels": list(range(k + 2)), "node_order": None, "ops": [["mpcc", lim]],
                         "rng": {"mode": "seed", "seed": seed}})
+    # large sparse networks whose few triangles sit on high-degree hubs (average clustering below 1e-9, transitivity
+    # near 0): three mutually adjacent hubs with 1500 leaves each; and a long path with one triangle at its end
+    hubs = [[0, 1], [0, 2], [1, 2]] + [[h, 3 + 1500 * h + i] for h in range(3) for i in range(1500)]
+    out.append({"n": 4503, "edges": hubs, "labels": list(range(4503)), "node_order": None, "ops": [["mpcc", 0]],
+                "rng": {"mode": "seed", "seed": seed}, "large": True})
+    path = [[i, i + 1] for i in range(3000)] + [[2999, 3001], [3000, 3001]]
+    out.append({"n": 3002, "edges": path, "labels": list(range(3002)), "node_order": None, "ops": [["mpcc", 3]],
+                "rng": {"mode": "seed", "seed": seed}, "large": True})
     return out
 
 
